@@ -47,7 +47,7 @@ Theorem C15_sma_method_affine {pw : PW} n (a b v : @F NumR) xs x : (1 <= n <= pm
     aff a b (snd (sma_next (steps sma_next s0 xs) x)).
 Proof. exact (sma_method_affine n a b v xs x). Qed.
 
-(** every averaging kind of the MA constructor that has a method theorem, except SWMA (12 kinds: sma wma hma rma ema
+(** every averaging kind of the MA constructor that has a method theorem, except SWMA, SMM and Vidya (12 kinds: sma wma hma rma ema
     dma dema tma tema wsma trima linreg): the instance built by the constructor is affine-equivariant on every stream *)
 Theorem C15_ma_constructor_affine {pw : PW} (c : ma_cfg) (a b v : @F NumR) xs x :
   ma_proved c = true -> not_swma c = true -> ma_len_ok c ->
